@@ -64,6 +64,12 @@ func init() {
 		if repo == "" {
 			repo = "/repo"
 		}
+		only := map[string]bool{}
+		for _, o := range strings.Split(os.Getenv("VERIF_VEC_OPS"), ",") {
+			if o != "" {
+				only[o] = true
+			}
+		}
 		files, _ := filepath.Glob(filepath.Join(repo, "testdata", "*.decTest"))
 		for _, fn := range files {
 			fh, err := os.Open(fn)
@@ -103,7 +109,7 @@ func init() {
 					continue
 				}
 				op, ok := vecOps[strings.ToLower(tok[1])]
-				if !ok {
+				if !ok || (len(only) > 0 && !only[op]) {
 					continue
 				}
 				arrow := -1
